@@ -623,6 +623,20 @@ func (r iqResponder) Close() error {
 	return nil
 }
 
+// contentNS is the namespace of the stanzas on the input stream.
+// With the WebSocket subprotocol the xmlns attribute of the peer's <open/>
+// element, which is what the stream info records, is the framing namespace and
+// not the content namespace of the stream (RFC 7395 §3.3).
+func (s *Session) contentNS() string {
+	if !s.ws {
+		return s.in.XMLNS
+	}
+	if s.State()&S2S == S2S {
+		return stanza.NSServer
+	}
+	return stanza.NSClient
+}
+
 func handleInputStream(s *Session, handler Handler) (err error) {
 	discard := xmlstream.Discard()
 	rc := s.TokenReader()
@@ -648,7 +662,7 @@ func handleInputStream(s *Session, handler Handler) (err error) {
 	}
 
 	// If this is a stanza, normalize the "from" attribute.
-	if stanza.Is(start.Name, s.in.XMLNS) {
+	if stanza.Is(start.Name, s.contentNS()) {
 		for i, attr := range start.Attr {
 			if attr.Name.Local == "from" && attr.Name.Space == "" {
 				local := s.LocalAddr().Bare().String()
